@@ -240,7 +240,11 @@ def check(ctx, rep):
                         ng.add((fi.key, "flag"))
                         ok = any(RQ.lock_held(s, o) for o in _owners(s, RQ))
                         rep.ob("R-GUARDED", "%s: stop flag written under the executor lock" % fi.qualname, ok, "the stop flag is written without the executor lock", where_of(fi, s.node), trace_of(p, s.seq))
-    rep.count("guarded mutation sites", len(ng), 6)
+    rep.count("guarded mutation sites", len(ng), 4)
+    # a queue that is rebuilt instead of shrunk in place: walk and store in one hold, insertions under the same lock,
+    # and whoever mutates it reads it inside its own critical section (roles.shrink_rule)
+    for Qx, _rem in queues:
+        roles.shrink_rule(ctx, rep, Qx.cls, Qx.field, "R-GUARDED", "the %s queue" % Qx.cls.name)
     for Qx, _rem in queues:
         roles.iteration_rule(ctx, rep, Qx, "R-GUARDED")
 
@@ -327,6 +331,9 @@ def _source(v, p, it, dcs, queues, CFS, inflight={}):
             if isinstance(t, tuple) and t[0] == "attr" and t[2] in CFS and val is False:
                 return "no cancel function"
             if val is False and isinstance(t, tuple) and any(isinstance(x, tuple) and x and x[0] == "comp" and x[4] for x in subterms(t)):
+                return "not in the polling stage"
+            # the same fact reported through a helper: "the entry selected for this future is None"
+            if val is True and isinstance(t, tuple) and t[0] == "cmp" and t[1] == "is" and t[3] == ("const", None) and any(isinstance(x, tuple) and x and x[0] == "comp" and x[4] for x in subterms(t[2])):
                 return "not in the polling stage"
         return None
     # (c) the cancel function's own answer
